@@ -11,7 +11,7 @@ def sh(cmd, cwd, env=None, timeout=1200):
     return r.returncode, (r.stdout + r.stderr)
 
 def confirm(seed: Path):
-    wt = Path(tempfile.mkdtemp(prefix="confirm_", dir="/tmp/wt"))
+    wt = Path(tempfile.mkdtemp(prefix="confirm_", dir="/root/scratch/wtc"))
     wt.rmdir()
     res = {"seed": str(seed)}
     try:
